@@ -633,7 +633,11 @@ func TestVerifC11(t *testing.T) {
 					a = rng.Intn(2) // concentrate so that several contracts fund one account
 				}
 				v := versionFor(a)
-				switch r := rng.Intn(100); {
+				r := rng.Intn(100)
+				if r >= 38 && r < 88 && balance(a).IsZero() && rng.Intn(6) > 0 {
+					r = 0 // nothing to debit yet: deposit instead
+				}
+				switch {
 				case r < 38:
 					c := 1 + rng.Intn(nCon)
 					if rng.Intn(25) == 0 {
